@@ -30,7 +30,7 @@ LEVEL_TEXT = ("Lean 4 theorems: for every pair of responses framed by Content-Le
               "unfinished_exchange_closes); an HTTP/2 stream receives exactly its own events. Tied by token-echo exploration of the real pool.")
 LEVEL_NOTE = ("Partial: no_desync is proved for Content-Length and (canonically encoded) chunked framing in any combination; close-delimited "
               "responses end the connection; keep-alive eligibility is h11's and observed, not modelled.")
-TECHNIQUE = "Lean 4 proof (reader refinement re-used for two exchanges; invariant corollaries) + Tie A + token-echo exploration with early closes, faults, cancels"
+TECHNIQUE = "Lean 4 proof (reader refinement re-used for two exchanges; invariant corollaries; life-cycle invariants over the translated gate / _response_closed / aclose) + Tie A (flags and statement-level translation) + event-log lock-step of the connection objects + token-echo exploration with early closes, faults, cancels"
 DESIGN_REF = "§5 C01"
 
 H1_PROFILES = [
@@ -72,7 +72,7 @@ def run(ctx, driver):
                                                                   "how_to_replay": "h2x.run_one(runtime, cfg, seed)"})
     # HTTP/2, callers cancelled at *any* suspension point (also while parked in a write) and SETTINGS frames arriving in the same read as
     # other streams' DATA: whatever else such a cancellation costs (see DESIGN §10), a body that is delivered as complete is the one sent
-    for i in range((300 if ctx.quick else 6000) * (4 if ctx.broken else 1)):
+    for i in range((300 if ctx.quick else 3000) * (4 if ctx.broken else 1)):
         cfg = dict(H2_PROFILE, callers=rng.randint(2, 5), coalesce=True, p_settings=0.4, cancel_phase="any", segment=rng.choice(["whole", "coarse"]),
                    max_steps=150, p_rst=0.0, abandon=False, downs=[3000], ups=[0])
         if i % 3:
